@@ -234,12 +234,21 @@ class LibraryUnroll(Family):
         return res
 
 
+def empty_blocks_family():
+    """Blocks without content (alone, nested in a repeated block, next to operations) with counts 1 and 2."""
+    sp = NestedSpace1(2, reps=(1, 2), bodies=[(), (('sub', 2, ()),), (('op', 'X', 0, None),)])
+    sp.name = 'N1E'
+    return UnrollFamily(sp, 'G', top_reps=(1, 2))
+
+
 def families(tier):
     if tier == 'quick':
-        return [UnrollFamily(NestedSpace2(2)), UnrollFamily(NestedSpace1(3)),
+        return [empty_blocks_family(),
+                UnrollFamily(NestedSpace2(2)), UnrollFamily(NestedSpace1(3)),
                 UnrollFamily(NestedSpace1(2, reps=(1, 2, 3), bodies=N1_BODIES + N1_BODIES_EXTRA), 'H', top_reps=(1, 2, ('reg', 3))),
                 UnrollFamily(TwoLevelSpace(1), 'D', top_reps=(1, 2)), LibraryUnroll()]
-    return [UnrollFamily(NestedSpace2(2)), UnrollFamily(NestedSpace2(2, reps=(('reg', 2), ('reg', 3)), atoms=[('X', 0), ('R', 1), ('M', 0), ('Z', 0), ('B', 0)]), 'H'),
+    return [empty_blocks_family(),
+            UnrollFamily(NestedSpace2(2)), UnrollFamily(NestedSpace2(2, reps=(('reg', 2), ('reg', 3)), atoms=[('X', 0), ('R', 1), ('M', 0), ('Z', 0), ('B', 0)]), 'H'),
             UnrollFamily(NestedSpace1(3, reps=(1, 2, 3), bodies=N1_BODIES + N1_BODIES_EXTRA), 'G', top_reps=(1, 2)),
             UnrollFamily(NestedSpace1(3), 'D'),
             UnrollFamily(TwoLevelSpace(2), 'D', top_reps=(1, 2, ('reg', 3))), LibraryUnroll()]
